@@ -122,6 +122,27 @@ pub struct Shared {
     pub max_leaves: AtomicU64,
     pub capped: AtomicU64,
     pub child_fail: AtomicU64,
+    /// paths abandoned because a solver call ignored its own time limit (see `watchdog`)
+    pub watchdog: AtomicU64,
+}
+
+static WD_SHARED: std::sync::atomic::AtomicPtr<Shared> = std::sync::atomic::AtomicPtr::new(std::ptr::null_mut());
+
+/// z3's time limit is polled cooperatively and some arithmetic loops (monomial patching over huge rationals) never poll:
+/// SIGALRM ends such a path; it is counted and reported as not explored.
+extern "C" fn on_alarm(_: libc::c_int) {
+    let p = WD_SHARED.load(AO::SeqCst);
+    if !p.is_null() {
+        unsafe {
+            (*p).watchdog.fetch_add(1, AO::SeqCst);
+            (*p).unknown_branch.fetch_add(1, AO::SeqCst);
+        }
+    }
+    unsafe { libc::_exit(0) }
+}
+
+fn watchdog(secs: u32) {
+    unsafe { libc::alarm(secs) };
 }
 
 struct St {
@@ -197,6 +218,8 @@ fn with<R>(f: impl FnOnce(&mut St) -> R) -> R {
                 p as *mut Shared
             };
             unsafe { (*shared).max_leaves.store(env_u32("SYMX_MAX_LEAVES", 20000) as u64, AO::SeqCst) };
+            WD_SHARED.store(shared, AO::SeqCst);
+            unsafe { libc::signal(libc::SIGALRM, on_alarm as extern "C" fn(libc::c_int) as usize) };
             *b = Some(St {
                 arena: reserved(),
                 known_dp: HashMap::new(),
@@ -384,6 +407,7 @@ pub mod sym {
         }
         with(|s| {
             let t0 = std::time::Instant::now();
+            watchdog(2 * s.prove_ms / 1000 + 30);
             let f = new_solver(s.prove_ms);
             for a in &s.pc {
                 f.assert(a);
@@ -402,6 +426,7 @@ pub mod sym {
                 },
                 SatResult::Unknown => Verdict::Unknown(f.get_reason_unknown().unwrap_or_default()),
             };
+            watchdog(0);
             let sh = unsafe { &*s.shared };
             sh.proves.fetch_add(1, AO::Relaxed);
             sh.prove_us.fetch_add(t0.elapsed().as_micros() as u64, AO::Relaxed);
@@ -411,11 +436,21 @@ pub mod sym {
 
     /// Concrete input values satisfying the current path condition (for path witnesses).
     pub fn witness() -> Option<Vec<(String, String)>> {
-        with(|s| solve_nice(s, &[]))
+        with(|s| {
+            watchdog(60);
+            let r = solve_nice(s, &[]);
+            watchdog(0);
+            r
+        })
     }
     /// ... that additionally satisfy `extra` (boundary witnesses)
     pub fn witness_with(extra: &[Bool]) -> Option<Vec<(String, String)>> {
-        with(|s| solve_nice(s, extra))
+        with(|s| {
+            watchdog(60);
+            let r = solve_nice(s, extra);
+            watchdog(0);
+            r
+        })
     }
 
     /// End this path: count the leaf and leave the process without running destructors.
@@ -482,7 +517,7 @@ pub mod sym {
         let s = sh();
         for a in [
             &s.leaves, &s.forks, &s.checks, &s.solver_us, &s.decisions, &s.unknown_branch, &s.proves,
-            &s.prove_us, &s.capped, &s.child_fail,
+            &s.prove_us, &s.capped, &s.child_fail, &s.watchdog,
         ] {
             a.store(0, AO::SeqCst);
         }
@@ -491,7 +526,9 @@ pub mod sym {
 
 fn timed_check(s: &St, assumption: &Bool) -> SatResult {
     let t0 = std::time::Instant::now();
+    watchdog((3 * s.decide_ms / 1000).max(15));
     let r = s.solver.check_assumptions(&[assumption.clone()]);
+    watchdog(0);
     let shr = unsafe { &*s.shared };
     shr.checks.fetch_add(1, AO::Relaxed);
     shr.solver_us.fetch_add(t0.elapsed().as_micros() as u64, AO::Relaxed);
@@ -1339,11 +1376,12 @@ impl<'de> serde::Deserialize<'de> for Decimal {
             fn visit_str<E: serde::de::Error>(self, v: &str) -> StdResult<Decimal, E> {
                 Decimal::from_str(v).map_err(E::custom)
             }
+            // integers may be the reserved literal of a symbolic value (TOML / JSON numbers)
             fn visit_i64<E: serde::de::Error>(self, v: i64) -> StdResult<Decimal, E> {
-                Ok(Decimal::from(v))
+                Decimal::from_str(&v.to_string()).map_err(E::custom)
             }
             fn visit_u64<E: serde::de::Error>(self, v: u64) -> StdResult<Decimal, E> {
-                Ok(Decimal::from(v))
+                Decimal::from_str(&v.to_string()).map_err(E::custom)
             }
             fn visit_f64<E: serde::de::Error>(self, v: f64) -> StdResult<Decimal, E> {
                 Decimal::from_str(&v.to_string()).map_err(E::custom)
